@@ -1,5 +1,6 @@
 import Librfn.Gen.FibreSeq
 import Librfn.Model.Fibre
+import Librfn.Lemmas.SchedTime
 import Std.Tactic.BVDecide
 import Librfn.Gen.Ackermann
 /-!
@@ -43,5 +44,48 @@ theorem duetime_cmp_tie (due : Librfn.Sched.Fid → BitVec 32) (f x : Librfn.Sch
     BitVec.sle 0#32 (duetime_cmp n1 n2 mem).ret = Librfn.Model.Fibre.dueGe due f x := by
   rw [(duetime_cmp_generated n1 n2 mem).2.2.2, h1, h2]
   simp only [BitVec.sle, Librfn.Model.Fibre.dueGe, BitVec.toInt_zero, ge_iff_le]
+
+/-! ### `fibre_timeout` (the list functions are the environment; `cyclecmp32` of `util.c` is inlined) -/
+
+theorem fibre_timeout_generated (cur : BitVec 64) (st now : BitVec 32) (runq aq timerq : BitVec 64) (taint due : BitVec 32) (r1 : BitVec 8)
+    (mem : Mem) :
+    (fibre_timeout cur st now runq aq timerq taint due r1 mem).ub = false ∧ (fibre_timeout cur st now runq aq timerq taint due r1 mem).exh = false ∧
+    (fibre_timeout cur st now runq aq timerq taint due r1 mem).kernel_current = cur ∧
+    (fibre_timeout cur st now runq aq timerq taint due r1 mem).kernel_now = now ∧
+    (fibre_timeout cur st now runq aq timerq taint due r1 mem).ret = (if BitVec.sle (due - now) 0#32 then 1#8 else 0#8) ∧
+    (fibre_timeout cur st now runq aq timerq taint due r1 mem).list_contains_called_1 = (!BitVec.sle (due - now) 0#32) ∧
+    (fibre_timeout cur st now runq aq timerq taint due r1 mem).list_contains_arg_1_0 = runq ∧
+    (fibre_timeout cur st now runq aq timerq taint due r1 mem).list_contains_arg_1_1 = cur + 16#64 ∧
+    (fibre_timeout cur st now runq aq timerq taint due r1 mem).list_contains_arg_1_2 = 0#64 ∧
+    (fibre_timeout cur st now runq aq timerq taint due r1 mem).list_insert_sorted_called_1 = (!BitVec.sle (due - now) 0#32 && r1 == 0#8) ∧
+    (fibre_timeout cur st now runq aq timerq taint due r1 mem).list_insert_sorted_arg_1_0 = timerq ∧
+    (fibre_timeout cur st now runq aq timerq taint due r1 mem).list_insert_sorted_arg_1_1 = cur + 16#64 ∧
+    (fibre_timeout cur st now runq aq timerq taint due r1 mem).list_insert_sorted_arg_1_2 = fibre_timeout.tag_fn_duetime_cmp := by
+  unfold fibre_timeout fibre_timeout.tag_fn_duetime_cmp
+  bv_decide (config := { timeout := 60 })
+
+/-- the memory: untouched when the due time has passed, otherwise `kernel.current->duetime = duetime` and nothing else -/
+theorem fibre_timeout_generated_mem (cur : BitVec 64) (st now : BitVec 32) (runq aq timerq : BitVec 64) (taint due : BitVec 32) (r1 : BitVec 8)
+    (mem : Mem) :
+    (fibre_timeout cur st now runq aq timerq taint due r1 mem).mem =
+      (if BitVec.sle (due - now) 0#32 then mem else Mem.store32 mem (cur + 12#64) due) := by
+  unfold fibre_timeout
+  simp only []
+  split <;> simp_all
+
+/-- **tie T, `fibre_timeout`, the decision**: it returns true exactly when the model's `notAfter due now` holds (the signed reading of
+    the wrapping difference, via the `cyclecmp32` of `util.c`), and only otherwise looks at the queues -/
+theorem fibre_timeout_tie (cur : BitVec 64) (st now : BitVec 32) (runq aq timerq : BitVec 64) (taint due : BitVec 32) (r1 : BitVec 8)
+    (mem : Mem) :
+    ((fibre_timeout cur st now runq aq timerq taint due r1 mem).ret ≠ 0#8 ↔ Librfn.Model.Fibre.notAfter due now = true) ∧
+    ((fibre_timeout cur st now runq aq timerq taint due r1 mem).list_contains_called_1 = !Librfn.Model.Fibre.notAfter due now) ∧
+    ((fibre_timeout cur st now runq aq timerq taint due r1 mem).list_insert_sorted_called_1 =
+      (!Librfn.Model.Fibre.notAfter due now && r1 == 0#8)) := by
+  obtain ⟨_, _, _, _, h5, h6, _, _, _, h10, _⟩ := fibre_timeout_generated cur st now runq aq timerq taint due r1 mem
+  have hn : Librfn.Model.Fibre.notAfter due now = BitVec.sle (due - now) 0#32 := by
+    simp only [Librfn.Model.Fibre.notAfter, Librfn.Sched.L.cyclecmp32_tie, BitVec.sle, BitVec.toInt_zero]
+  rw [h5, h6, h10, hn]
+  refine ⟨?_, rfl, rfl⟩
+  cases BitVec.sle (due - now) 0#32 <;> simp
 
 end Librfn.C02.Tie
